@@ -302,8 +302,11 @@ def main(tier):
     for w, pb in worlds(tier):
         if tier == 'quick':
             items.append((w, 1, 0, 1, 1))
-        else:       # two passes: more preemptions with few free switches, and vice versa
-            items += [(w, 2, s, 8, 1) for s in range(8)]
+        else:       # two passes: more preemptions with few free switches (core worlds), and vice versa
+            if pb >= 2 and len(w['callers']) <= 2 and all(c['aw'] == 'coro' for c in w['callers']):
+                items += [(w, 2, s, 8, 1) for s in range(8)]
+            else:
+                items.append((w, 1, 0, 1, 1))
             items.append((w, 1, 0, 1, 2))
     total = Stats()
     for st in common.pmap(run_item, items):
